@@ -171,11 +171,11 @@ def main():
   chk = Check('C20', tier)
   from corpus.tinyrv0_progs import PROGS, TIMINGS
   items = [dict(kind='cksum', name='cksum', which=w) for w in ('FL', 'RTL', 'CL')]
-  tms = TIMINGS[:3] if tier == 'quick' else TIMINGS
+  tms = TIMINGS[:4] if tier == 'quick' else TIMINGS
   for p in PROGS:
     for lv in ('FL', 'CL', 'RTL'):
       for i, t in enumerate(tms):
-        if tier == 'quick' and lv != 'RTL' and i == 2: continue
+        if tier == 'quick' and lv != 'RTL' and i >= 2: continue
         items.append(dict(kind='proc', name=f"{lv}/{p}/{t}", prog=p, level=lv, timing=list(t)))
   if tier == 'thorough':       # one symbolic stall per memory port at every possible position (RTL: ~2000 paths per program)
     for p in ['adj_csrw_csrw', 'store_load', 'adj_lw', 'csrw_then_branch', 'back_loop']:
